@@ -23,7 +23,7 @@ RULE = ("wishbone.Decoder geometries (data width 8-64, granularity <= data width
         "subordinates with different feature sets and an unassigned address. Distinct = canonical JSON.")
 BUDGET = {"quick": (16, 250), "thorough": (16, 5000)}
 ESSENTIAL = ["sparse", "dense", "unassigned_address", "aw0", "granularity<dw", "default_lock", "default_cti",
-             "default_bte", "sub_lacks_err", "sub_has_err", "shuffled", "stall"]
+             "default_bte", "sub_lacks_err", "sub_has_err", "shuffled", "stall", "refused_add_ghost"]
 ASSUMPTIONS = [
     "subordinates respond (ack/err/rty/stall) only while selected, as Wishbone requires; their dat_r is arbitrary",
     "dense windows onto a finer-granularity subordinate and sparse windows narrower than one decoder word are excluded by construction (open known findings K1/K2, probed by pinned cases)",
@@ -43,13 +43,15 @@ def _spec(draw, tier):
 
 
 def strategy(tier):
-    return _spec(tier)
+    return gens.with_pre(_spec(tier))
 
 
 CTI_VALUES = [0b000, 0b001, 0b010, 0b111]
 
 
 def check(spec, stats):
+    if sim.set_pre(spec):
+        stats.label("pre_elaborated")
     if spec.get("known"):
         return _check_known(spec, stats)
     cfg, seed = spec["cfg"], spec["dseed"]
@@ -118,6 +120,12 @@ def check(spec, stats):
                     ctx.set(Value.cast(bus.cti), cti)
                 if "bte" in feat:
                     ctx.set(Value.cast(bus.bte), bte)
+                for gi, gh in enumerate(dec.ghosts):      # refused subordinates: must not matter
+                    ctx.set(gh.ack, 1); ctx.set(gh.dat_r, hval(seed, f"gh{gi}", t, gh.data_width) | 1)
+                    for k in ("err", "rty", "stall"):
+                        if hasattr(gh, k):
+                            ctx.set(getattr(gh, k), 1)
+                    stats.label("refused_add_ghost")
                 resp = {}
                 for i, f in enumerate(ifaces):
                     selected = sel_w is not None and sel_w[0] == i
